@@ -778,8 +778,10 @@ def _round_trip_tables(ctx: Ctx):
     wn, rn = [a.arg for a in wt.args.args], [a.arg for a in rtg.args.args]
     intervals = [("b", 1.5, 2.2504), ("a", 0.25, 1.0), ("c", 2.2504, 3.0)]
     points = [("p", 0.5, 0.5), ("q", 2.0, 2.0)]
+    silences = [("", 0.0, 0.3), ("a", 0.3, 0.45), ("", 0.45, 0.6), ("b", 0.6, 1.0)]  # (the empty label: how silence is usually marked)
     tg_cases = [("intervals", intervals, 3, fill_, tier_) for fill_ in (None, "sil", "") for tier_ in (0, "words")] \
-        + [("intervals", intervals, 1, "sil", 0), ("points", points, 3, None, 0), ("points", points, 3, "sil", "words")]
+        + [("intervals", intervals, 1, "sil", 0), ("points", points, 3, None, 0), ("points", points, 3, "sil", "words")] \
+        + [("intervals", silences, 3, None, 0), ("points", [("", 0.5, 0.5), ("q", 2.0, 2.0)], 3, None, "words")]
     tbad, tn = None, 0
     try:
         for tag, tr, prec, fill_, tier_ in tg_cases:
